@@ -261,6 +261,16 @@ Theorem no_unprotected_after_handshake : forall (CS : Type) (R : CS -> CS -> Pro
             e_rbuf (fst (recv_step13 false cr cw Pr Pw e (hty, hver, body))) = e_rbuf e.
 Proof. exact @no_unprotected_after_handshake_l. Qed.
 
+(* a rejected record closes the connection, invalidates the session and delivers nothing whether or not the
+   fatal alert can be written to the transport (timeout, reset, any exception from send) *)
+Theorem reject_closes_even_if_alert_unsendable : forall (CS : Type) (sendable : bool) (cr cw : Cfg) (Pr Pw : Prim CS)
+    (e : Endpoint CS) (w : Wire) err,
+  unprotect cr Pr (e_rd e) w = RErr err ->
+  let e' := fst (recv_step_f sendable cr cw Pr Pw e w) in
+  e_closed e' = true /\ e_resumable e' = false /\ e_rbuf e' = e_rbuf e /\
+  (sendable = false -> e_sent e' = e_sent e).
+Proof. exact @reject_closes_even_if_alert_unsendable_l. Qed.
+
 (* ---- the hypotheses are satisfiable ------------------------------------------------------------------------ *)
 Example aead_tight_satisfiable : aead_tight (toy_prim_aead [4; 5] 16).
 Proof. exact (toy_aead_tight [4; 5] 16 ltac:(discriminate)). Qed.
